@@ -2,6 +2,8 @@ package props
 
 import (
 	"fmt"
+	"github.com/form3tech-oss/f1/v2/internal/trigger/constant"
+	"github.com/form3tech-oss/f1/v2/internal/trigger/staged"
 	"math"
 	"time"
 
@@ -35,9 +37,14 @@ func init() {
 			for i := 0; i < n; i++ {
 				cs = append(cs, core.MkCase("C13", "jitter", i, seed, c13Params{Seqs: per, MaxLen: ml}))
 			}
+			// two command lines in one process, the first with --jitter, the second (another trigger) without: no jitter is
+			// the identity
+			for i := 0; i < 4; i++ {
+				cs = append(cs, core.MkCase("C13", "flagstwice", i, seed, map[string]int{"order": i}))
+			}
 			return cs
 		},
-		Kinds:  map[string]core.RunFunc{"jitter": c13Run},
+		Kinds:  map[string]core.RunFunc{"jitter": c13Run, "flagstwice": c13FlagsTwice},
 		Floors: map[string]int64{"seqs_nontrivial": 300, "ticks": 100000},
 	})
 }
@@ -254,4 +261,63 @@ func c13Run(c *core.Case, o *core.Outcome) {
 		o.MaxObs("max:observed_factor_min_below_one_permille", int64((1-minF)*1000))
 	}
 	o.MaxObs("max:worst_balance_over_bound_permille", int64(worst*1000))
+}
+
+// c13FlagsTwice: the trigger builders as the command line uses them, twice in one process: first a trigger with a non-zero
+// --jitter, then a freshly built trigger of another (or the same) mode without the flag. The second trigger's rate is its
+// un-jittered profile, exactly, on every tick.
+func c13FlagsTwice(c *core.Case, o *core.Outcome) {
+	var pp map[string]int
+	c.Params(&pp)
+	type bl struct {
+		name string
+		mk   func() api.Builder
+		args []string
+		want int
+	}
+	builders := []bl{
+		{"constant", constant.Rate, []string{"--rate", "1000/1s", "--distribution", "none"}, 1000},
+		{"staged", staged.Rate, []string{"--stages", "0s:700,1h:700", "--distribution", "none", "-f", "1s"}, 700},
+	}
+	first, second := builders[pp["order"]%2], builders[(pp["order"]/2+1)%2]
+	desc := fmt.Sprintf("first %s --jitter 50, then %s without --jitter", first.name, second.name)
+	b1 := first.mk()
+	if err := b1.Flags.Parse(append(append([]string{}, first.args...), "--jitter", "50")); err != nil {
+		o.Inconc("harness: %v", err)
+		return
+	}
+	t1, err := b1.New(b1.Flags)
+	if err != nil || t1 == nil || t1.DryRun == nil {
+		o.Violate("flagstwice-rejected:"+desc, "valid flags rejected: %v (%s)", err, desc)
+		return
+	}
+	base := time.Now()
+	differs := false
+	for k := 0; k < 200; k++ {
+		if t1.DryRun(base.Add(time.Duration(k)*time.Second)) != first.want {
+			differs = true
+		}
+	}
+	b2 := second.mk()
+	if err := b2.Flags.Parse(second.args); err != nil {
+		o.Inconc("harness: %v", err)
+		return
+	}
+	t2, err := b2.New(b2.Flags)
+	if err != nil || t2 == nil || t2.DryRun == nil {
+		o.Violate("flagstwice-rejected:"+desc, "valid flags rejected: %v (%s)", err, desc)
+		return
+	}
+	for k := 0; k < 200; k++ {
+		if v := t2.DryRun(base.Add(time.Duration(k) * time.Second)); v != second.want {
+			o.Violate("flagstwice:"+desc, "tick %d of the second trigger requests %d, its profile says %d: a trigger built without --jitter is not the identity after an earlier command line used --jitter (%s)", k, v, second.want, desc)
+			return
+		}
+	}
+	o.Events += 400
+	o.AddObs("ticks", 400)
+	if differs {
+		o.AddObs("seqs_nontrivial", 1)
+		o.Sig("flagstwice:%s-then-%s", first.name, second.name)
+	}
 }
